@@ -1,0 +1,30 @@
+//go:build verif
+
+package caching
+
+// Contracts for the deductive verifier in /verif (comment-only file, build tag verif).
+
+// TTL: the postconditions are the storability clause of property C16, written from the statement:
+// stored only if public and no refusal directive, lifetime = s-maxage, else max-age, else default.
+//@ func TTL
+//@   ghost var g_cc *cache.CacheControlResponse = nil
+//@   ghost var g_err bool = false
+//@   at call ParseCacheControlResponse: ghost g_cc = result0
+//@   at call ParseCacheControlResponse: ghost g_err = result1 != nil
+//@   ensures {parse.error.refuses} g_err ==> !result1
+//@   ensures {stored.only.if.public.and.not.refused} result1 ==> !g_err && g_cc.Public && !g_cc.NoStore && g_cc.NoCache == nil && g_cc.Private == nil
+//@   ensures {smaxage.first} result1 && g_cc.SMaxAge != nil ==> *g_cc.SMaxAge > 0 && result0 == *g_cc.SMaxAge * 1000000000
+//@   ensures {maxage.second} result1 && g_cc.SMaxAge == nil && g_cc.MaxAge != nil ==> *g_cc.MaxAge > 0 && result0 == *g_cc.MaxAge * 1000000000
+//@   ensures {default.last} result1 && g_cc.SMaxAge == nil && g_cc.MaxAge == nil ==> defaultTTL > 0 && result0 == defaultTTL
+//@   ensures {refused.means.zero} !result1 ==> result0 == 0
+//@   ensures {positive.lifetime} result1 ==> result0 > 0
+//@   modifies *
+//@   safety nil
+
+//@ func appendHex64
+//@   ensures len(result) == len(dst) + 16
+//@   modifies *
+
+//@ func Key
+//@   ensures len(result) == 36
+//@   modifies *
